@@ -331,9 +331,9 @@ def render_real(unit: Unit, repo: Repo, log: list) -> str:
         if len(entry) > 2:
             rep = entry[2]   # rule E8: the helper call is wrapped so that the closure and result can be named in a proof block
         body, n = apply_template(body, tpl, rep)
-        if n != count:
-            raise AnchorLost(f"{unit.name}: shape {rule} `{tpl}` matched {n} times, expected {count}")
-        log.append(f"E4 {unit.name}: shape {rule} `{tpl}` -> `{rep}` x{n}")
+        # the count in the store is what the unchanged tree has; a different count is not an error: every match is
+        # rewritten, and whatever the rules do not cover is rejected by Verus itself (-> undecided, never an alarm)
+        log.append(f"E4 {unit.name}: shape {rule} `{tpl}` -> `{rep}` x{n}" + ("" if n == count else f" (the store expects {count})"))
     for label, frm, to, count in unit.text_rewrites:
         # whitespace-insensitive exact text
         pat = r"\s*".join(re.escape(t.text) for t in tokenize(frm))
